@@ -9,9 +9,48 @@ theorem Sys.run_w {α} (s : Sys) (m : M α) (v : α → Val) : (s.run m v).1.w =
   unfold Sys.run
   split <;> rename_i h <;> simp [h]
 
-theorem Sys.step_pres {f : FsCfg} {I : World → Prop} (h : OpsPres f I) (s : Sys) (env : Env) (c : Call)
-    (hw : I s.w) : I (s.step f env c).1.w := by
-  cases c <;> simp only [Sys.step]
+theorem hRead_pres {f : FsCfg} {I : World → Prop} (h : OpsPres f I) (hd : Handle) (n : Nat) : Pres I (hRead f hd n) := by
+  have hs := h.stable
+  unfold hRead startReader
+  repeat (first
+    | with_reducible exact restoreContent_ro hs f _
+    | with_reducible exact fetchedHeader_ro hs f _
+    | with_reducible exact Pres.wedge h.stuck _
+    | pres_step)
+
+theorem hSeekNoLock_pres {f : FsCfg} {I : World → Prop} (h : OpsPres f I) (hd : Handle) (o w : Int) : Pres I (hSeekNoLock f hd o w) := by
+  have hs := h.stable
+  unfold hSeekNoLock startReader
+  repeat (first
+    | with_reducible exact restoreContent_ro hs f _
+    | with_reducible exact fetchedHeader_ro hs f _
+    | with_reducible exact Pres.wedge h.stuck _
+    | pres_step)
+
+theorem hReadAt_pres {f : FsCfg} {I : World → Prop} (h : OpsPres f I) (hd : Handle) (n : Nat) (o : Int) : Pres I (hReadAt f hd n o) := by
+  unfold hReadAt
+  repeat (first
+    | with_reducible exact hSeekNoLock_pres h _ _ _
+    | with_reducible exact hRead_pres h _ _
+    | pres_step)
+
+theorem hWriteAtCore_pres {f : FsCfg} {I : World → Prop} (h : OpsPres f I) (hd : Handle) (p : Bytes) (o : Int) : Pres I (hWriteAtCore f hd p o) := by
+  unfold hWriteAtCore
+  repeat (first
+    | with_reducible exact hSeekNoLock_pres h _ _ _
+    | pres_step)
+
+theorem hTruncateCore_pres {I : World → Prop} (hd : Handle) (sz : Int) : Pres I (hTruncateCore hd sz) := by
+  unfold hTruncateCore
+  repeat pres_step
+
+theorem hStat_pres {I : World → Prop} (hd : Handle) : Pres I (hStat hd) := by
+  unfold hStat
+  repeat pres_step
+
+theorem Sys.step0_pres {f : FsCfg} {I : World → Prop} (h : OpsPres f I) (s : Sys) (env : Env) (c : Call)
+    (hw : I s.w) : I (s.step0 f env c).1.w := by
+  cases c <;> simp only [Sys.step0]
   case init r p => rw [Sys.run_w]; exact (initFs_pres h env r p).run _ hw
   case mkdir n p => rw [Sys.run_w]; exact (mkdir_pres h env n p).run _ hw
   case mkdirAll n p => rw [Sys.run_w]; exact (mkdirAll_pres h env n p).run _ hw
@@ -47,6 +86,58 @@ theorem Sys.step_pres {f : FsCfg} {I : World → Prop} (h : OpsPres f I) (s : Sy
     · rename_i hd _
       have := (hWrite_pres h hd data).run _ hw
       split <;> rename_i heq <;> rw [heq] at this <;> exact this
+  case hread id n =>
+    split
+    · exact hw
+    · rename_i hd _
+      have := (hRead_pres h hd n).run _ hw
+      split <;> rename_i heq <;> rw [heq] at this <;> exact this
+  case hreadAt id n off =>
+    split
+    · exact hw
+    · rename_i hd _
+      have := (hReadAt_pres h hd n off).run _ hw
+      split <;> rename_i heq <;> rw [heq] at this <;> exact this
+  case hseek id off wh =>
+    split
+    · exact hw
+    · rename_i hd _
+      have := (hSeekNoLock_pres h hd off wh).run _ hw
+      split <;> rename_i heq <;> rw [heq] at this <;> exact this
+  case hwriteAt id data off =>
+    split
+    · exact hw
+    · rename_i hd _
+      split
+      · exact hw
+      · have h1 := (enterWriteMode_pres h hd).run _ hw
+        split
+        · rename_i heq; rw [heq] at h1; exact h1
+        · rename_i w1 h1' heq
+          rw [heq] at h1
+          have h2 := (hWriteAtCore_pres h h1' data off).run _ h1
+          split <;> rename_i heq2 <;> rw [heq2] at h2 <;> exact h2
+  case htruncate id sz =>
+    split
+    · exact hw
+    · rename_i hd _
+      split
+      · exact hw
+      · have h1 := (enterWriteMode_pres h hd).run _ hw
+        split
+        · rename_i heq; rw [heq] at h1; exact h1
+        · rename_i w1 h1' heq
+          rw [heq] at h1
+          have h2 := (hTruncateCore_pres (I := I) h1' sz).run _ h1
+          split <;> rename_i heq2 <;> rw [heq2] at h2 <;> exact h2
+  case hstat id =>
+    split
+    · exact hw
+    · rename_i hd _
+      have := (hStat_pres (I := I) hd).run _ hw
+      split <;> rename_i heq <;> rw [heq] at this <;> exact this
+  case hname id =>
+    split <;> exact hw
   case hsync id =>
     split
     · exact hw
@@ -64,6 +155,18 @@ theorem Sys.step_pres {f : FsCfg} {I : World → Prop} (h : OpsPres f I) (s : Sy
     · exact hw
     · rename_i hd _
       rw [Sys.run_w]; exact (hReaddir_pres h hd n).run _ hw
+
+theorem Sys.step_pres {f : FsCfg} {I : World → Prop} (h : OpsPres f I) (s : Sys) (env : Env) (c : Call)
+    (hw : I s.w) : I (s.step f env c).1.w := by
+  unfold Sys.step
+  split
+  · have := Sys.step0_pres h { s with w := { s.w with stuck := true } } env c (h.stuck _ hw)
+    generalize Sys.step0 f { s with w := { s.w with stuck := true } } env c = x at this
+    rcases x with ⟨s', r⟩
+    split
+    · rename_i heq; injection heq with h1 _; subst h1; exact this
+    · rename_i s2 r2 _ heq; injection heq with h1 _; subst h1; exact h.unstuck _ this
+  · exact Sys.step0_pres h s env c hw
 
 theorem Sys.runAll_pres {f : FsCfg} {I : World → Prop} (h : OpsPres f I) (hist : List (Env × Call)) :
     ∀ (s : Sys), I s.w → I (s.runAll f hist).w := by
